@@ -84,6 +84,12 @@ DoBatchInvert ==
                      THEN inv[CHOOSE i \in 1..n : e.rs[i] = r] ELSE regs[r]],
                   /\ Has("outs") /\ Len(e.outs) = n
                   /\ \A i \in 1..n : e.outs[i] = OutOf(inv[i]))
+\* long slices: element i (0-based) is register i mod NREG, or zero at the listed positions
+DoBatchLong ==
+    /\ Is("batch_long")
+    /\ LET val(i) == IF \E k \in 1..Len(e.zs) : e.zs[k] = i THEN Zero ELSE R(i % NREG)
+       IN Observe(/\ Has("outs") /\ Len(e.outs) = e.n
+                  /\ \A i \in 0..(e.n - 1) : e.outs[i + 1] = OutOf(FInv(q, val(i))))
 DoLegendre == Is("legendre") /\ Observe(Has("res") /\ e.res = Legendre(q, R(e.a)))
 
 \* square roots are checked relationally on the returned element
@@ -170,7 +176,7 @@ Next ==
     \/ DoInit \/ DoRaw \/ DoFromInt \/ DoConst
     \/ DoAdd \/ DoSub \/ DoMul \/ DoNeg \/ DoSquare \/ DoXSquare \/ DoHalf
     \/ DoMulK \/ DoMulSmall
-    \/ DoDiv \/ DoInvert \/ DoBatchInvert \/ DoLegendre \/ DoSqrt
+    \/ DoDiv \/ DoInvert \/ DoBatchInvert \/ DoBatchLong \/ DoLegendre \/ DoSqrt
     \/ DoEncode \/ DoEquals \/ DoIsZero
     \/ DoDecodeCt \/ DoDecode \/ DoDecodeReduce
     \/ DoSetCond \/ DoSelect \/ DoCSwap \/ DoLookup16
